@@ -17,6 +17,11 @@ type InMemory struct {
 	namespaces []Cursor
 	attributes []Cursor
 	nodes      []Cursor
+
+	// inheritPending is set while an element may still receive namespace
+	// declarations of its own; the in-scope namespaces of its parent are
+	// copied once the first other event for the element arrives.
+	inheritPending bool
 }
 
 func initElement() InMemory {
@@ -61,6 +66,10 @@ func createInMemory(cursor *InMemory, parse parser.Parser, pos int) error {
 			return err
 		}
 
+		if _, isNamespace := n.(node.Namespace); !isNamespace || isEnd {
+			pos = inheritNamespaces(cursor, pos)
+		}
+
 		if isEnd {
 			cursor = cursor.parent
 			continue
@@ -86,24 +95,50 @@ func createInMemory(cursor *InMemory, parse parser.Parser, pos int) error {
 }
 
 func addNamespace(ns node.Namespace, cursor *InMemory, pos int) int {
-	toReplace := -1
-
-	for pos, i := range cursor.namespaces {
-		nsTest := i.(*InMemory).node.(node.Namespace)
-
-		if nsTest.Prefix() == ns.Prefix() {
-			toReplace = pos
-			break
-		}
-	}
+	toReplace := findNamespace(cursor, ns.Prefix())
 
 	if toReplace < 0 {
+		pos++
 		cursor.namespaces = append(cursor.namespaces, createNonElement(ns, cursor, pos))
-		return pos + 1
+		return pos
 	}
 
 	nsPos := cursor.namespaces[toReplace].(*InMemory).pos
 	cursor.namespaces[toReplace] = createNonElement(ns, cursor, nsPos)
+	return pos
+}
+
+func findNamespace(cursor *InMemory, prefix string) int {
+	for pos, i := range cursor.namespaces {
+		nsTest := i.(*InMemory).node.(node.Namespace)
+
+		if nsTest.Prefix() == prefix {
+			return pos
+		}
+	}
+
+	return -1
+}
+
+// inheritNamespaces gives the element its own namespace nodes for the
+// bindings that are in scope on its parent and that it does not declare
+// itself.
+func inheritNamespaces(cursor *InMemory, pos int) int {
+	if !cursor.inheritPending {
+		return pos
+	}
+
+	cursor.inheritPending = false
+
+	for _, i := range cursor.parent.namespaces {
+		ns := i.(*InMemory).node.(node.Namespace)
+
+		if findNamespace(cursor, ns.Prefix()) < 0 {
+			pos++
+			cursor.namespaces = append(cursor.namespaces, createNonElement(ns, cursor, pos))
+		}
+	}
+
 	return pos
 }
 
@@ -121,18 +156,9 @@ func createElement(node node.Node, parent *InMemory, pos int) (*InMemory, int) {
 	next.node = node
 	next.pos = pos
 	next.parent = parent
+	next.inheritPending = true
 
-	ns := make([]Cursor, len(parent.namespaces))
-	copy(ns, parent.namespaces)
-
-	next.namespaces = ns
-
-	for _, i := range next.namespaces {
-		pos++
-		i.(*InMemory).pos = pos
-	}
-
-	return &next, pos + len(next.namespaces)
+	return &next, pos
 }
 
 func (c *InMemory) Pos() int {
